@@ -50,6 +50,30 @@ def _deenumerate(loop):
             new.iter = ast.Call(func=ast.Name(id="range", ctx=ast.Load()), args=[ast.Call(func=ast.Name(id="len", ctx=ast.Load()), args=[clone_ast(X)], keywords=[])], keywords=[])
             ast.fix_missing_locations(new)
             out = new
+    elif isinstance(it, ast.Call) and isinstance(it.func, ast.Name) and it.func.id == "enumerate" and len(it.args) == 1 and not it.keywords \
+            and isinstance(it.args[0], ast.Call) and isinstance(it.args[0].func, ast.Name) and it.args[0].func.id == "zip" and not it.args[0].keywords \
+            and isinstance(loop.target, ast.Tuple) and len(loop.target.elts) == 2 and isinstance(loop.target.elts[0], ast.Name) \
+            and isinstance(loop.target.elts[1], ast.Tuple) and len(loop.target.elts[1].elts) == len(it.args[0].args) >= 1 \
+            and all(isinstance(e, ast.Name) for e in loop.target.elts[1].elts):
+        # for i, (a, b) in enumerate(zip(A, B)): ..a..b..  ->  for i in range(len(A)): ..A[i]..B[i]..   (A and B are of one length: zip stops at the shorter)
+        i = loop.target.elts[0].id
+        names = {e.id: k for k, e in enumerate(loop.target.elts[1].elts)}
+        rebound = any(isinstance(x, ast.Name) and x.id in names and isinstance(x.ctx, ast.Store) for s in loop.body for x in ast.walk(s))
+        if not rebound and len(names) == len(loop.target.elts[1].elts):
+            from .core import clone_ast
+            new = clone_ast(loop)
+            XS = new.iter.args[0].args
+
+            class Sub2(ast.NodeTransformer):
+                def visit_Name(self, n):
+                    if n.id in names and isinstance(n.ctx, ast.Load):
+                        return ast.copy_location(ast.Subscript(value=clone_ast(XS[names[n.id]]), slice=ast.Name(id=i, ctx=ast.Load()), ctx=ast.Load()), n)
+                    return n
+            new.body = [Sub2().visit(s) for s in new.body]
+            new.target = ast.Name(id=i, ctx=ast.Store())
+            new.iter = ast.Call(func=ast.Name(id="range", ctx=ast.Load()), args=[ast.Call(func=ast.Name(id="len", ctx=ast.Load()), args=[clone_ast(XS[0])], keywords=[])], keywords=[])
+            ast.fix_missing_locations(new)
+            out = new
     _DEENUM[id(loop)] = (loop, out)      # keep the original alive so that its id is not reused
     return out
 
@@ -88,6 +112,39 @@ def scan_form(lp):
     return None
 
 
+def exit_scan(lp):
+    """for i in range(len(X)): <tree of ifs whose leaves are `return e`, `continue`, `pass` or nothing>
+    -> (loop, X, i, [(conditions as (test, polarity) list, returned expression)]) or None; the paths exclude each other"""
+    lp = _deenumerate(lp)
+    rl = _range_len(lp.iter)
+    if rl is None or rl[1] or not isinstance(lp.target, ast.Name) or lp.orelse:
+        return None
+    paths = []
+
+    def walk(stmts, conds):
+        """-> True when every way through stmts returns"""
+        for k, s in enumerate(stmts):
+            if isinstance(s, ast.Return):
+                paths.append((list(conds), s.value))
+                return True
+            if isinstance(s, ast.Continue):
+                return True
+            if isinstance(s, ast.Pass) or (isinstance(s, ast.Expr) and isinstance(s.value, ast.Constant)):
+                continue
+            if isinstance(s, ast.If):
+                rest = stmts[k + 1:]
+                a = walk(s.body + rest, conds + [(s.test, True)])
+                b = walk(s.orelse + rest, conds + [(s.test, False)])
+                if a is None or b is None:
+                    return None
+                return a and b
+            return None
+        return False
+    if walk(lp.body, []) is None or not paths:
+        return None
+    return lp, rl[0], lp.target.id, paths
+
+
 def first_match(stmts, what):
     """find the first-match scan in a statement list.  Accepted forms:
        A  r = d; for i in range(len(X)): if C(i): r = i; break
@@ -102,6 +159,13 @@ def first_match(stmts, what):
         c = scan_form(lp)
         if c is not None:
             cands.append(c)
+    if not cands and len(loops) == 1:
+        es = exit_scan(loops[0])
+        after = stmts[stmts.index(loops[0]) + 1:]
+        if es is not None and len(after) == 1 and isinstance(after[0], ast.Return):
+            fm = FirstMatch(es[0], es[1], es[2], None, None, after[0].value, "D")
+            fm.paths = es[3]
+            return fm
     if len(cands) != 1:
         raise AnalysisError("%s: first-match scan not recognised (%d candidate loops of %d)" % (what, len(cands), len(loops)))
     form, lp, over, var, test, res = cands[0]
